@@ -50,6 +50,18 @@ TRUSTED_BASE_COMMON = [
 ]
 
 
+LEVELS = ["exploration", "fault_enumeration", "model_checking", "proof", "translation_validation", "other"]
+
+
+def norm_level(l):
+    if l in LEVELS:
+        return l
+    for k in LEVELS:
+        if l.startswith(k):
+            return k
+    return "other"
+
+
 def log(*a):
     print(*a, flush=True)
 
@@ -495,7 +507,7 @@ def check(pid, tier="quick", seed=None, replay=None):
         property_id=pid,
         tier=tier,
         seed=seed,
-        level=spec.get("level", "proof"),
+        level=norm_level(spec.get("level", "proof")),
         coverage=cov,
         assumptions=spec.get("assumptions", []),
         wall_s=round(time.time() - t0, 2),
